@@ -11,6 +11,10 @@ theorem eq_of_xor_eq_zero {a b : Nat} (h : a ^^^ b = 0) : a = b := by
   have : a ^^^ (a ^^^ b) = b := by rw [← Nat.xor_assoc, Nat.xor_self, Nat.zero_xor]
   rw [h, Nat.xor_zero] at this; exact this
 
+theorem xor_cancel_mid (x y p : Nat) : x ^^^ p ^^^ (y ^^^ p) = x ^^^ y := by
+  have : x ^^^ p ^^^ (y ^^^ p) = x ^^^ y ^^^ (p ^^^ p) := by ac_rfl
+  rw [this, Nat.xor_self, Nat.xor_zero]
+
 theorem all_range {p : Nat → Bool} {n : Nat} (h : ((List.range n).all p) = true) {i : Nat} (hi : i < n) :
     p i = true := by
   rw [List.all_eq_true] at h
